@@ -268,11 +268,19 @@ def own_calls(body):
 
 
 def direct_callers(prog, pred):
-    """Concrete predicates with an own-level positive call of `pred` in some rule: their
-    SQL cannot be produced without compiling `pred`."""
+    """Concrete predicates with an own-level positive call of `pred` in some rule and not
+    mutually recursive with it: their SQL cannot be produced without compiling `pred`.
+    (Inside a recursive component the bounded unfolding legitimately prunes rules: with
+    @Recursive(Ra, 1) the SQL of Rb needs no rule of Ra.)"""
+    comps, _ = recgen.components(prog)
+    same = set()
+    for c in comps:
+        if pred in c:
+            same |= c
     out = []
     for r in prog['rules']:
-        if r['pred'] != pred and r['pred'] not in out and pred in own_calls(r['body']):
+        if r['pred'] != pred and r['pred'] not in out and r['pred'] not in same and \
+                pred in own_calls(r['body']):
             out.append(r['pred'])
     return out
 
@@ -1022,6 +1030,11 @@ def prog_of_case(case):
 def check_case(case):
     drive.enable_library_cache()
     prog = prog_of_case(case)
+    if case['target'][0] == 'caller':
+        site = _site_rule(case['params'])
+        if site is None or case['target'][1] not in direct_callers(
+                prog, prog['rules'][site]['pred']):
+            return []                   # not a target the catalogue would choose
     try:
         res = judge(prog, case['op'], case['params'], tuple(case['target']))
     except OutOfDomain:
@@ -1041,6 +1054,10 @@ def _still_fails(c2, bucket):
         prog2 = prog_of_case(c2)
         defined = set(preds_in_order(prog2)) | set(prog2.get('inj', {}))
         closed = all(common.deps_of_rule(r) <= defined for r in prog2['rules'])
+        if c2['target'][0] == 'caller':
+            site = _site_rule(c2['params'])
+            closed = closed and site is not None and c2['target'][1] in direct_callers(
+                prog2, prog2['rules'][site]['pred'])
         return closed and any(b == bucket for b, _ in check_case(c2)) and \
             run_base(prog2, text_of(render(prog2)), c2['target'][1]) == 'ok'
     except Exception:
